@@ -125,7 +125,7 @@ theorem parse_op_block_value {F : Fl} (e body : Ex) (op o c v : PToken) (ws1 ws2
   have hvcol : v.col = 0 + e.toks.length + ws1.length + 1 + ws2.length + 1 + wsA.length + body.toks.length + wsB.length + 1 +
       ws3.length := hn6.1
   -- e
-  obtain ⟨st1, E, re, cb, hloop, hinv, hgs, hcg, _, _, _, href⟩ :=
+  obtain ⟨st1, E, re, cb, hloop, hinv, hgs, hcg, _, _, _, hcnt, href⟩ :=
     (ex_ok e false he).1 PState.init none none 0 openB_init (.top rfl rfl) (by intro i nd h; simp [PState.init] at h) rfl
       rfl (Or.inl rfl) 0 hnume (ws1 ++ (op :: (ws2 ++ (o :: (wsA ++ (body.toks ++ (wsB ++ (c :: (ws3 ++ [v])))))))))
   obtain ⟨st1', hloopW1, hinv', hn1', hgs1', hcg1'⟩ :=
